@@ -130,6 +130,16 @@ def check_props(ops, outs, V, st):
             E = out.split(' ')[1:]; continue
         nxt = outs[i + 1].split(' ')[1:] if i + 1 < len(outs) and ops[i + 1] == 'E' else None
         if nxt is None: continue
+        if k == 'C' and out.startswith('C ok'):
+            # a created list denotes what the expression says (reference expansion, independent of the model: prefix[ranges]suffix
+            # with zero padding kept; only expressions it understands and of moderate size)
+            try:
+                import preds
+                want = [x.decode() for x in preds.expand_hl(arg.encode())]
+            except Exception: want = None
+            if want is not None and len(want) <= 4096 and not any(c in ''.join(want) for c in '[]') and all(0 < len(w) for w in want):
+                st['C14 created lists checked against the reference expansion'] += 1
+                if nxt != want: V.append(dict(sig='C14 a created list does not denote the names of its expression', at=i, op=op[:120], got=nxt[:12], want=want[:12]))
         if k == 'P':
             if nxt != E + [arg]: V.append(dict(sig='C14 push does not append exactly the pushed name', at=i, op=op, before=E[-5:], after=nxt[-6:]))
         elif k == 'F':
